@@ -26,9 +26,14 @@ DIRLIKE = {"lib", "bin", "etc", "dev", "lost+found", "sub", "sub2", "deep", ".ca
 DOTS = [".hidden", ".Links", ".names", ".dotdir", ".x"]
 
 CONFIG = {"handlers.dir.DirHandler": {"cachetime": "0"}}
+# The documented ignore pattern of the shipped configuration (conf/pygopherd.conf and conf/local.conf as pinned).
+# The listings served with the UNMODIFIED shipped configuration are judged against it: the configuration files are
+# part of the tree under test, and a shipped pattern that no longer hides what it is documented to hide is a defect
+# of the tree even though the code follows its configuration faithfully.  Update when the documented pattern changes.
 SHIPPED_PATTERN = (r"/.cap$|/lost\+found$|/lib$|/bin$|/etc$|/dev$|~$|/\.cache|/\.forward$|/\.message$|/\.hushlogin$|"
                    r"/\.kermrc$|/\.notar$|/\.where$|/veronica.ctl$|/robots.txt$|/nohup.out$|/gophermap$|\.abstract$|"
-                   r"\.keyboards$|\.ask|\.3d$|~$")   # only steers the generator; the checks read the live configuration
+                   r"\.keyboards$|\.ask|\.3d$|~$")
+REFERENCE_PATTERN = SHIPPED_PATTERN
 
 
 def link_block(rng, i):
@@ -184,6 +189,52 @@ def hide_first_trees():
     return out
 
 
+def history_scenarios():
+    """Same-second metadata edits: (label, tree before, [edit steps], [names hidden by metadata after each step]).
+    All in the directory /d; every step is applied without the clock advancing."""
+    def f(p, d="x\n"):
+        return {"path": "d/" + p, "data": d}
+    base = [f("f1.txt"), f("f2.txt"), f("f3.txt"), f("f4.txt"), {"path": "d/sub", "kind": "dir"}, f("sub/in.txt")]
+    W = lambda p, d: {"op": "write", "path": "d/" + p, "data": d}      # noqa: E731
+    R = lambda p: {"op": "remove", "path": "d/" + p}                    # noqa: E731
+    out = []
+    out.append(("cap-add-then-remove", base + [f(".cap/f2.txt", "Name=Two\n")],
+                [[W(".cap/f1.txt", "Type=X\n")], [R(".cap/f1.txt")], [W(".cap/sub", "Type=-\n")]],
+                [{"f1.txt"}, set(), {"sub"}]))
+    out.append(("cap-directory-appears", base, [[W(".cap/f2.txt", "Type=-\n")], [W(".cap/f3.txt", "Type=X\n")]],
+                [{"f2.txt"}, {"f2.txt", "f3.txt"}]))
+    out.append(("cap-file-changes", base + [f(".cap/f1.txt", "Name=Old title\n")],
+                [[W(".cap/f1.txt", "Type=X\n")], [W(".cap/f1.txt", "Name=New title\nNumb=1\n")]], [{"f1.txt"}, set()]))
+    out.append(("cap-directory-removed", base + [f(".cap/f1.txt", "Type=X\n")], [[R(".cap")]], [set()]))
+    out.append(("link-file-appears-changes-goes", base,
+                [[W(".names", "Type=X\nPath=./f3.txt\n")], [W(".names", "Path=./f3.txt\nName=Three\n")], [R(".names")]],
+                [{"f3.txt"}, set(), set()]))
+    out.append(("second-link-file", base + [f(".Links", "Type=-\nPath=./f3.txt\n")],
+                [[W(".names", "Type=X\nPath=./f4.txt\n\nPath=./f3.txt\nName=Still hidden\n")]], [{"f3.txt", "f4.txt"}]))
+    out.append(("child-renamed", base + [f(".cap/f4.txt", "Type=X\n")],
+                [[{"op": "rename", "path": "d/f4.txt", "to": "d/g4.txt"}], [{"op": "rename", "path": "d/g4.txt", "to": "d/f4.txt"}]],
+                [set(), {"f4.txt"}]))
+    out.append(("children-come-and-go", base, [[W("f5.txt", "new\n"), R("f1.txt")], [W("x~", "backup\n"), W(".hidden", "dot\n")]],
+                [set(), set()]))
+    out.append(("sidecar-abstract", base, [[W("f1.txt.abstract", "About one\n")], [W("f1.txt.abstract", "Changed\nabstract\n")],
+                                           [R("f1.txt.abstract")]], [set(), set(), set()]))
+    return out
+
+
+def apply_edits(tree, edits):
+    """the tree spec after an edit step (for a fresh process)"""
+    t = [dict(e) for e in tree]
+    for e in edits:
+        if e["op"] == "write":
+            t = [x for x in t if x["path"] != e["path"]] + [{"path": e["path"], "data": e.get("data", "")}]
+        elif e["op"] == "remove":
+            t = [x for x in t if x["path"] != e["path"] and not x["path"].startswith(e["path"] + "/")]
+        elif e["op"] == "rename":
+            t = [dict(x, path=e["to"] + x["path"][len(e["path"]):]) if (x["path"] == e["path"] or x["path"].startswith(e["path"] + "/"))
+                 else x for x in t]
+    return t
+
+
 def matching_dirs(patt):
     """Directory selectors whose OWN path is matched by an unanchored alternative of the pattern
     (derived from the pattern, whatever it is): everything below them is ignored."""
@@ -224,11 +275,33 @@ OTHER_PATTERNS = ["~$|/\\.|/gophermap$",              # the Bucktooth sample of 
                   "/staging/|\\.bak$|/CVS$|~$"]       # a path-scoped alternative
 
 
-def full_tree(base):
-    """every matching and every near-miss name at once (both sides of every alternative)"""
+def names_for_pattern(patt):
+    """For EVERY alternative of a pattern (derived from the pattern, not written by hand): a file name the
+    alternative matches, and near misses of it (one character appended / prepended / dropped)."""
+    match, miss = [], []
+    for atoms, anchored in umnlib.gen_umn.compile_ignore(patt):
+        text = "".join("x" if a is None else chr(a) for a in atoms)
+        if not text or "\n" in text or "\x00" in text:
+            continue
+        body = text[1:] if text.startswith("/") else "a" + text
+        if not body or "/" in body or body in (".", ".."):
+            continue
+        match.append(body)
+        if not anchored:
+            match.append(body + "tail")
+        near = [body + "2" if anchored else None, ("x" + body) if text.startswith("/") else None,
+                body[:-1] if len(body) > 1 else None]
+        miss += [m for m in near if m and m not in (".", "..")]
+    return sorted(set(match)), sorted(set(miss))
+
+
+def full_tree(base, patt=None):
+    """every matching and every near-miss name at once (both sides of every alternative), the hand-written
+    ones and the ones derived from the documented pattern"""
     pre = base.strip("/")
     pre = pre + "/" if pre else ""
-    names = sorted(set(MATCHING + MISSES + ["a.txt", "sub", ".hidden"]))
+    dm, dmiss = names_for_pattern(patt or REFERENCE_PATTERN)
+    names = sorted(set(MATCHING + MISSES + dm + dmiss + ["a.txt", "sub", ".hidden"]))
     tree = []
     for n in names:
         if n in DIRLIKE:
@@ -406,6 +479,11 @@ def run(tier):
     for base in ("/all", "/"):
         t, names, hidden = full_tree(base)
         trees.append({"tree": t, "dir": base, "names": names, "hidden": hidden, "perms": None, "nrand": 3})
+    if search_res.get("local") is not None:
+        # the other shipped configuration file, its pattern exactly as ConfigParser reads it
+        t, names, hidden = full_tree("/all")
+        trees.append({"tree": t, "dir": "/all", "names": names, "hidden": hidden, "perms": None, "nrand": 1,
+                      "cfgpatt": search_res["local"], "conf": "conf/local.conf"})
     for k in range(10 if thorough else 5):
         base = ["/d", "/"][k % 2]
         t, names, hidden = tie_names_tree(rng, base)
@@ -445,8 +523,8 @@ def run(tier):
             perms.append(list(reversed(range(n))))
         fetch = [n for n in tr["names"] if n not in DIRLIKE]
         cfg = CONFIG
-        if tr.get("patt"):
-            cfg = {"handlers.dir.DirHandler": {"cachetime": "0", "ignorepatt": tr["patt"]}}
+        if tr.get("patt") or tr.get("cfgpatt"):
+            cfg = {"handlers.dir.DirHandler": {"cachetime": "0", "ignorepatt": tr.get("patt") or tr["cfgpatt"]}}
         jobs.append({"op": "c07_listing", "tree": tr["tree"], "dir": tr["dir"], "kinds": ["dir", "umn"],
                      "perms": perms, "config": cfg, "fetch": fetch})
     lres = impl_run_parallel(jobs, chunks=min(len(jobs), 12))
@@ -464,7 +542,9 @@ def run(tier):
                 raise RuntimeError("tree generator and listdir disagree: %r vs %r" % (got_names, sorted(tr["names"])))
             lcases.append(umnlib.listing_case(run_, kind))
             lmeta.append((tr, kind))
-            exp = expected_names(kind, run_["ignorepatt"], base, world, tr["hidden"])
+            # configured on purpose (tr["patt"]): judged by what is configured; shipped configuration: by what is documented
+            exp = expected_names(kind, tr["patt"] if tr.get("patt") else REFERENCE_PATTERN, base, world, tr["hidden"])
+            exp_live = expected_names(kind, run_["ignorepatt"], base, world, tr["hidden"])
             dirsels = {base + "/" + c["name"]: c["name"] for c in world["children"]}
             for g in run_["groups"]:
                 nperm += len(g["perms"])
@@ -499,6 +579,16 @@ def run(tier):
                                    "tree": tr["tree"], "dir": tr["dir"],
                                    "enumeration": [world["children"][i]["name"] for i in g["perms"][0]]},
                                   tag="c07-cap-hidden-relisted")
+                elif got != exp and got == exp_live:
+                    found = True
+                    chk.violation({"what": "the shipped configuration no longer hides what its ignore pattern is documented to "
+                                           "hide: the listing follows the pattern as ConfigParser reads it from the conf file, "
+                                           "and that is not the documented pattern", "handler": kind,
+                                   "conf_file": tr.get("conf", "conf/pygopherd.conf"),
+                                   "ignorepatt_as_read": run_["ignorepatt"], "documented": REFERENCE_PATTERN,
+                                   "should_be_hidden_but_listed": [n for n in got if n not in exp],
+                                   "should_be_listed_but_hidden": [n for n in exp if n not in got],
+                                   "tree": tr["tree"], "dir": tr["dir"]}, tag="c07-shipped-ignorepatt:" + kind)
                 elif got != exp:
                     found = True
                     chk.violation({"what": "listing is not exactly the visible entries, once each", "handler": kind,
@@ -533,11 +623,43 @@ def run(tier):
                 chk.violation({"what": "a directory entry (listed or kept out of the listing) is not retrievable by exact selector",
                                "selector": (("" if tr["dir"] == "/" else tr["dir"]) + "/" + n), "tree": tr["tree"],
                                "response_latin1": fr["out"][:300], "exception": fr["exc"]}, tag="c07-not-retrievable")
+    # ---------------- histories: metadata edited within the same second, one process ----------------
+    hs = history_scenarios()
+    hjobs = [{"op": "c07_history", "tree": t, "dir": "/d", "kinds": ["umn", "dir"], "edits": steps, "config": CONFIG}
+             for _, t, steps, _ in hs]
+    hres = impl_run_parallel(hjobs, chunks=min(len(hjobs), 9))
+    umnlib.check_ok(hres)
+    nhist = 0
+    for (label, t0, steps, hiddens), r in zip(hs, hres):
+        for kind in ("umn", "dir"):
+            for i, st in enumerate(r["res"]["runs"][kind]):
+                hidden_i = set() if i == 0 else hiddens[i - 1]
+                if i == 0:
+                    # what the tree says before any edit
+                    hidden_i = {x["path"][len("d/.cap/"):] for x in t0 if x["path"].startswith("d/.cap/")
+                                and x.get("data", "").startswith(("Type=X", "Type=-"))}
+                    hidden_i |= {"f3.txt"} if any(x["path"] == "d/.Links" for x in t0) else set()
+                lcases.append(umnlib.listing_case(st, kind))
+                lmeta.append(({"tree": t0, "dir": "/d", "history": label, "step": i}, kind))
+                nhist += 1
+                chk.count(("history", label, kind, i))
+                res_ = st["groups"][0]["result"]
+                exp = expected_names(kind, REFERENCE_PATTERN, "/d", st["world"], hidden_i)
+                got = None if "exc" in res_ else sorted(e["selector"][3:] for e in res_["entries"]
+                                                        if e["selector"].startswith("/d/") and "/" not in e["selector"][3:]
+                                                        and e["selector"][3:] in [c["name"] for c in st["world"]["children"]])
+                if got != exp:
+                    found = True
+                    chk.violation({"what": "after metadata was edited within the same second (one process, no clock advance) the "
+                                           "listing is not exactly the visible entries of the directory as it is now",
+                                   "history": label, "step": i, "handler": kind, "tree_before": t0, "edit_steps": steps[:i],
+                                   "expected_directory_entries": exp, "listed_directory_entries": got,
+                                   "outcome": res_.get("exc")}, tag="c07-stale-metadata:" + kind)
     mism_l, err_l, nsh = coq_eval("C07", "k_listing", "Lib.Str Lib.Regex Model.DirEntry Model.UMN Model.Dir Corr.K07",
                                   "chk_listing the_fx", lcases, shard=1, pre=pre, timeout=900)
     cov["correspondence"] = {
         "entrycmp_pairs": len(ecases), "sort_arrangements": len(arrangements), "name_sorts": len(ncases),
-        "search_strings": len(search_strings) * len(alt_patterns), "listing_worlds": len(lcases),
+        "search_strings": len(search_strings) * len(alt_patterns), "listing_worlds": len(lcases), "history_listings": nhist,
         "enumeration_orders": nperm, "shards": nsh,
         "mismatches": {"entrycmp": len(mism_e), "sort": len(mism_s), "namesort": len(mism_n), "search": len(mism_g),
                        "shipped_pattern": len(mism_h), "listing": len(mism_l)},
